@@ -51,6 +51,10 @@ class Built(object):
         if k == "prim":
             cls = self.prims[t["t"]]
             f = {kk: jv.dec(vv) for kk, vv in t.get("f", {}).items()}
+            if f.pop("pa_json_exc", None):
+                # per-protocol attributes: the member is excluded from JsonDocument output only
+                from spyne.protocol.json import JsonDocument
+                f["pa"] = {JsonDocument: dict(exc=True)}
             if f:
                 if t["t"] == "ByteArray":
                     cls = cls(**f)
